@@ -72,7 +72,9 @@ impl<'a> PrettyPrinter<'a> {
             return prefix_doc;
         }
 
-        let import_items_doc = self.convert_import_items(ctx, import_items_nodes);
+        // A comment before the items also keeps them in their order.
+        let can_reorder = !prefix_part.iter().any(is_comment_node);
+        let import_items_doc = self.convert_import_items(ctx, import_items_nodes, can_reorder);
         // The line break after a trailing line comment went away with the trailing space of the prefix.
         let sep = if (prefix_part.last()).is_some_and(|node| node.kind() == SyntaxKind::LineComment)
         {
@@ -87,10 +89,12 @@ impl<'a> PrettyPrinter<'a> {
         &'a self,
         ctx: Context,
         mut import_items_nodes: Vec<&'a SyntaxNode>,
+        can_reorder: bool,
     ) -> ArenaDoc<'a> {
         // Sort import items if the configuration allows it.
         // The sorting is only applied if all nodes are not comments and if there are no duplicate names.
-        if self.config.reorder_import_items
+        if can_reorder
+            && self.config.reorder_import_items
             && import_items_nodes.iter().all(|node| !is_comment_node(node))
             && check_import_name_duplication(&import_items_nodes)
         {
